@@ -177,7 +177,7 @@ CHECKS = {
             'names; filesystem-call tracing with confinement (os/builtins/io '
             'wrapped in-process) and before/after tree fingerprints as oracle',
             'Every name of <= 2 (quick) / <= 3 (thorough) components over an '
-            '11-element alphabet (empty, ".", "..", NUL, 300 bytes, non-ASCII, '
+            '16-element alphabet (empty, ".", "..", NUL, 300 bytes, non-ASCII, '
             '"~", "*", INBOX, ...) and Hypothesis names beyond are run through '
             '20 commands covering all 14 mailbox-argument positions, on '
             'maildir "++", maildir "fs" and dict, with alice and bob '
